@@ -97,18 +97,24 @@ func (x *execCtx) lockRow(t *Table, row *Row, recheck func(*Row) (bool, error), 
 				continue
 			}
 		}
-		if cur.Locker != 0 && cur.Locker != s.top {
+		// Locker is the (sub)transaction that took the FOR UPDATE lock. Doc 13.3.1: "if a lock
+		// is acquired after establishing a savepoint, the lock is released immediately if the
+		// savepoint is rolled back to" — a lock whose subtransaction aborted is not held.
+		if cur.Locker != 0 {
 			st, _ := db.status(cur.Locker)
-			if st == txInProgress {
-				if err := s.waitFor(WaitInfo{HolderTop: cur.Locker, What: fmt.Sprintf("row lock of %s", t.Name)}); err != nil {
+			switch {
+			case st != txInProgress:
+				cur.Locker = 0
+			case db.topOf(cur.Locker) != s.top:
+				if err := s.waitFor(WaitInfo{HolderTop: db.topOf(cur.Locker), What: fmt.Sprintf("row lock of %s", t.Name)}); err != nil {
 					return nil, err
 				}
 				continue
 			}
-			cur.Locker = 0
 		}
-		if lockOnly {
-			cur.Locker = s.top
+		if lockOnly && cur.Locker == 0 {
+			// (an own, still live lock is kept: it belongs to an enclosing subtransaction)
+			cur.Locker = s.cur
 		}
 		return cur, nil
 	}
@@ -1038,12 +1044,32 @@ func (x *execCtx) runDelete(d *Delete, outer *scope) (*RowSet, int64, error) {
 		}
 		target.Xmax, target.Cmax, target.Next = x.s.cur, x.cid, nil
 		affected++
+		// AFTER DELETE row triggers (doc 39.1: fired at the end of the statement, OLD is the
+		// deleted row), in trigger-name order
+		for _, tg := range x.triggersFor(t, "after", "delete", nil) {
+			tg := tg
+			old := target.Vals
+			fire := func() error {
+				_, _, err := x.fireTrigger(t, tg, "delete", nil, old)
+				return err
+			}
+			if tg.Deferred {
+				x.s.deferred = append(x.s.deferred, fire)
+			} else {
+				x.root().after = append(x.root().after, fire)
+			}
+		}
 		if d.Returning != nil {
 			row, err := x.evalReturningShapes(d.Returning, retShapes, t, alias, target.Vals, target, outer, fc)
 			if err != nil {
 				return nil, 0, err
 			}
 			ret.Rows = append(ret.Rows, row)
+		}
+	}
+	if x.top == nil {
+		if err := x.flushAfter(); err != nil {
+			return nil, 0, err
 		}
 	}
 	return ret, affected, nil
